@@ -71,6 +71,18 @@ def gen(rnd, relative_style):
     for f in sorted(spec["files"]):
         if f.endswith(".py") and rnd.random() < 0.25:
             spec["files"][f] = "from . import not_a_module_name\n" + spec["files"][f]
+    if rnd.random() < 0.12:
+        # a package reachable under a second name through a directory symlink (never shallower than its target, so the
+        # relative imports of the linked files stay inside the root): one module per directory ENTRY
+        all_d = trees.all_dirs(spec)
+        depth_of = lambda d: d.count("/") + 1 if d else 0  # noqa: E731
+        targets = [d for d in all_d if d and "emptydir" not in d]
+        if targets:
+            target = rnd.choice(targets)
+            homes = [d for d in all_d if d != target and not d.startswith(target + "/") and depth_of(d) + 1 >= depth_of(target)]
+            if homes:
+                home = rnd.choice(homes)
+                spec["symlinks"] = [((home + "/" if home else "") + "lnk", target)]
     if relative_style:
         # rewrite some absolute imports relative to the parent of a randomly chosen module_path
         dirs = [d for d in trees.all_dirs(spec) if d]
@@ -207,6 +219,8 @@ def one_tree(tspec, relative_style, acc, rnd, only_mp=None, force_excl=None):
             acc.count("directory_exclusion_scans")
             attribute_scan_findings(sx, MAPPING, c4)
         acc.count("trees")
+        if tspec.get("symlinks"):
+            acc.count("trees_with_symlinked_package")
     finally:
         trees.remove_tree(root)
 
@@ -222,7 +236,7 @@ def floors(acc, tier):
     why = []
     if acc.counters["scans_judged"] < 200:
         why.append(f"only {acc.counters['scans_judged']} scans judged")
-    for c, n in (("subscan_equivalences", 100), ("entry_point_equivalences", 100), ("prefix_sibling_trees", 10), ("via_prefix_statements", 10), ("include_mode_scans", 30), ("sibling_directory_exclusion_scans", 10), ("root_named_package_scans", 20)):
+    for c, n in (("subscan_equivalences", 100), ("entry_point_equivalences", 100), ("prefix_sibling_trees", 10), ("via_prefix_statements", 10), ("include_mode_scans", 30), ("sibling_directory_exclusion_scans", 10), ("root_named_package_scans", 20), ("trees_with_symlinked_package", 10)):
         if acc.counters[c] < n:
             why.append(f"{c}: only {acc.counters[c]}")
     if acc.counters["scan_model_errors"]:
